@@ -4,6 +4,7 @@ import Atto.Driver.SendOp
 import Atto.Driver.ProxyOp
 import Atto.Driver.MpOp
 import Atto.Driver.SessOp
+import Atto.Driver.CharsetOp
 namespace Atto.Driver
 open Atto
 
@@ -43,6 +44,7 @@ def runLine (line : String) : String :=
   | "pfor" :: args => opPfor args
   | "mpart" :: args => opMpart args
   | "sess" :: args => opSess args
+  | "charset" :: args => opCharset args
   | "penv" :: args => opPenv args
   | _ => "bad-op"
 
